@@ -160,6 +160,12 @@ class H11Protocol:
                     )
                 )
 
+            if self.connection.their_state is h11.MUST_CLOSE:
+                # This request is the last on the connection (either
+                # side has said so), whatever the client sends after
+                # it is not served and must not disturb its response.
+                break
+
             try:
                 event = self.connection.next_event()
             except h11.RemoteProtocolError as error:
